@@ -109,18 +109,57 @@ class PolyEval(Evaluator):
         self.masked_stores = {}
         self.result_names = set()      # the local(s) the function returns: stores into them are the branches of the result
 
-    def bind(self, t, v):
-        if isinstance(t, ast.Subscript) and isinstance(t.value, ast.Name) and t.value.id in self.result_names:
-            self.masked_stores[ast.unparse(t.slice)] = v
-            return
-        super().bind(t, v)
-
     def subscript(self, n):
         # self._normal[proj_coord]
         if ast.unparse(n.value) in ("self._normal", "self.normal") and isinstance(n.slice, ast.Name) \
                 and n.slice.id in self.env and self.env[n.slice.id].kind == "colsym":
             return SV("scal", [Poly.atom("NPROJ")])
         return super().subscript(n)
+
+    methods = None        # name -> FunctionDef of the polygon classes (zero-argument private helpers are inlined)
+
+    def call(self, n):
+        f = n.func
+        if isinstance(f, ast.Attribute) and isinstance(f.value, ast.Name) and f.value.id == "self" and not n.args and not n.keywords \
+                and self.methods and f.attr in self.methods and getattr(self, "_depth", 0) < 2:
+            # self._helper(): evaluate its body; a lazy fill `if self._x is None: self._x = ...` is taken (the value a
+            # coherent cache holds is the one the fill computes)
+            self._depth = getattr(self, "_depth", 0) + 1
+            try:
+                return self._inline(self.methods[f.attr])
+            finally:
+                self._depth -= 1
+        return super().call(n)
+
+    def _inline(self, fdef):
+        saved_env, saved_names = self.env, self.result_names
+        self.env, self.result_names = {}, set()
+        try:
+            for s in fdef.body:
+                if isinstance(s, ast.Expr) and isinstance(s.value, ast.Constant):
+                    continue
+                if isinstance(s, ast.If) and not s.orelse and isinstance(s.test, ast.Compare) and len(s.test.ops) == 1 \
+                        and isinstance(s.test.ops[0], ast.Is) and isinstance(s.test.comparators[0], ast.Constant) and s.test.comparators[0].value is None:
+                    for b in s.body:
+                        Evaluator.run(self, [b])
+                    continue
+                if isinstance(s, ast.Return):
+                    return self.ev(s.value)
+                Evaluator.run(self, [s])
+            raise NotInFragment("helper without return")
+        finally:
+            self.env, self.result_names = saved_env, saved_names
+
+    def bind(self, t, v):
+        if isinstance(t, ast.Attribute) and isinstance(t.value, ast.Name) and t.value.id == "self":
+            self.attr["self." + t.attr] = v        # a store into a (cache) attribute inside an inlined helper
+            return
+        if isinstance(t, ast.Name) and t.id == "_":
+            return
+        if isinstance(t, ast.Subscript) and isinstance(t.value, ast.Name) and t.value.id in self.result_names:
+            self.masked_stores[ast.unparse(t.slice)] = v
+            return
+        Evaluator.bind(self, t, v)
 
     def run(self, stmts):
         out = None
@@ -137,6 +176,11 @@ def evaluate(fn, extra_env=None, extra_attr=None):
     attr = base_env()
     attr.update(extra_attr or {})
     ev = PolyEval(attr, extra_env)
+    if fn.cls is not None:
+        ev.methods = {}
+        for c in reversed(fn.cls.mro):
+            for name, m in c.methods.items():
+                ev.methods[name] = m.node
     ev.result_names = {n.value.id for n in ast.walk(fn.node) if isinstance(n, ast.Return) and isinstance(n.value, ast.Name)}
     body = [s for s in fn.node.body if not (isinstance(s, ast.Expr) and isinstance(s.value, ast.Constant))]
     ret = ev.run(body)
